@@ -437,6 +437,8 @@ func (e *Exec) invoke(th *Thread, recv Value, m *types.Func, args []Value) Value
 			return e.errMethod(th, d, iv, m.Name(), args)
 		case *CtxData:
 			return e.ctxMethod(th, d, m.Name(), args)
+		case *TLSData:
+			return e.tlsMethod(th, d, m.Name(), args)
 		}
 	}
 	fn := e.methodOf(iv.t, m)
